@@ -12,9 +12,10 @@
 (* them one shard at a time).                                                 *)
 (* The generator carries the command history with the predicted observation   *)
 (* of BOTH shards after every command and prints each behaviour of length     *)
-(* GenLen as one JSON line.  Event types are disjoint per shard (TypesA,      *)
-(* TypesB) so that a read by type is a read of one shard's model state, while *)
-(* the real read fans out over all shards.                                    *)
+(* GenLen as one JSON line.  TypesA and TypesB may be disjoint (a read by type *)
+(* is then a read of one shard's model state) or equal (the same event types  *)
+(* - the same uids, file names and per-type caches - live on both shards; the *)
+(* driver attributes the rows of a fanned-out read to a shard by context).    *)
 EXTENDS Naturals, Sequences, FiniteSets, TLC, Json
 CONSTANTS Cap, K, TypesA, TypesB, Ctxs, MaxEv, MaxCrash, MaxFlush, MaxCompact, Fix,
           FlushCrash, CompactCrash, QuiescentCrash, CleanRestarts, GenLen
@@ -68,6 +69,37 @@ GenNext ==
      \/ /\ A!CleanRestart /\ B!CleanRestart
         /\ hist' = Append(hist, [cmd |-> "restart", sh |-> "AB", obsA |-> ObsA, obsB |-> ObsB])
 GenSpec == GenInit /\ [][GenNext]_<<avars, bvars, hist>>
+
+\* Lockstep family: every per-shard command of shard A is repeated on shard B straight away, so both shards go through
+\* the same layouts with the SAME segment labels, WAL log ids and (when TypesA = TypesB) event-type uids, and a
+\* compaction round of A is followed by a round of B over an identical list of input labels.  Anything in the process
+\* that is keyed by label / id / uid without the shard is shared between the two in these behaviours.  Pipeline crashes
+\* are left to GenNext (they make the shards diverge); quiescent crashes and graceful restarts hit both.
+LastCmd == hist[Len(hist)]
+MustMirror == hist # <<>> /\ LastCmd.sh = "A"
+LockNext ==
+  /\ Len(hist) < GenLen
+  /\ IF MustMirror
+     THEN \/ /\ LastCmd.cmd = "store"
+             /\ B!Store(LastCmd.t, LastCmd.c, "none", {}) /\ UNCHANGED avars
+             /\ hist' = Append(hist, [cmd |-> "store", sh |-> "B", k |-> b_nstored + 1, t |-> LastCmd.t, c |-> LastCmd.c,
+                                      crash |-> "none", part |-> {}, obsA |-> ObsA, obsB |-> ObsB])
+          \/ /\ LastCmd.cmd = "compact"
+             /\ B!Compact("none") /\ UNCHANGED avars
+             /\ hist' = Append(hist, [cmd |-> "compact", sh |-> "B", crash |-> "none", obsA |-> ObsA, obsB |-> ObsB])
+     ELSE \/ \E t \in TypesA \cap TypesB, c \in Ctxs :
+               /\ A!Store(t, c, "none", {}) /\ UNCHANGED bvars
+               /\ hist' = Append(hist, [cmd |-> "store", sh |-> "A", k |-> a_nstored + 1, t |-> t, c |-> c,
+                                        crash |-> "none", part |-> {}, obsA |-> ObsA, obsB |-> ObsB])
+          \/ /\ A!ManualFlush("none", {}) /\ B!ManualFlush("none", {})
+             /\ hist' = Append(hist, [cmd |-> "flush", sh |-> "AB", crash |-> "none", part |-> {}, obsA |-> ObsA, obsB |-> ObsB])
+          \/ /\ A!Compact("none") /\ UNCHANGED bvars
+             /\ hist' = Append(hist, [cmd |-> "compact", sh |-> "A", crash |-> "none", obsA |-> ObsA, obsB |-> ObsB])
+          \/ /\ A!CrashRestart /\ B!CrashRestart
+             /\ hist' = Append(hist, [cmd |-> "crash", sh |-> "AB", obsA |-> ObsA, obsB |-> ObsB])
+          \/ /\ A!CleanRestart /\ B!CleanRestart
+             /\ hist' = Append(hist, [cmd |-> "restart", sh |-> "AB", obsA |-> ObsA, obsB |-> ObsB])
+LockSpec == GenInit /\ [][LockNext]_<<avars, bvars, hist>>
 
 \* the product keeps every per-shard property of Storage (checked on small constants by Storage2_m.cfg)
 DurableBoth == A!Durable /\ B!Durable
